@@ -1032,6 +1032,41 @@ def param_instance(name):  # noqa: F811
         return lambda n: _concat_geom(n, int(parts[1][1:]), int(parts[2][1:]))
     if kind == "splitg":
         return lambda n: _split_geom(n, int(parts[1][1:]), int(parts[2][1:]), int(parts[3][1:]))
+    if kind == "transposeg":
+        perm = [int(ch) for ch in parts[1][1:]]
+
+        def f(n, perm=perm):
+            x = n.cur
+            t = n.T(x)
+            if len(t["shape"]) != len(perm):
+                return False
+            pt = n.const([len(perm)], "int32", "data", values=perm)
+            y = n.act([t["shape"][i] for i in perm], t["dtype"], q=(n.scale(x), n.zp(x)))
+            n.op("TRANSPOSE", [x, pt], [y], ("TransposeOptions", {}))
+            return True
+        return f
+    if kind == "ewv":
+        # binary elementwise operator whose second operand is a VARIABLE tensor of broadcast shape, cut out of the first by a STRIDED_SLICE
+        opn, code, order = parts[1], parts[2], parts[3]
+
+        def g(n):
+            x = n.cur
+            t = n.T(x)
+            if not _hw4(n) or t["dtype"] not in ("int8", "uint8", "int16"):
+                return False
+            nb, h, w, c = t["shape"]
+            e = {"c": (h - 1, w - 1, 0), "w": (h - 1, 0, c - 1), "h": (0, w - 1, c - 1), "hw": (0, 0, c - 1), "o": (h - 1, w - 1, c - 1)}[code]
+            if not _ss_geom(n, (0, 0, 0), e):
+                return False
+            y = n.cur
+            z = n.act(t["shape"], t["dtype"])
+            optname = {"ADD": "AddOptions", "SUB": "SubOptions", "MUL": "MulOptions", "MINIMUM": "MaximumMinimumOptions", "MAXIMUM": "MaximumMinimumOptions"}[opn]
+            opts = (optname, dict(FusedActivationFunction=0)) if opn in ("ADD", "SUB", "MUL") else (optname, {})
+            if opn in ("MINIMUM", "MAXIMUM"):
+                n.T(z)["quant"] = dict(scale=[n.scale(x)], zp=[n.zp(x)])
+            n.op(opn, [y, x] if order == "k" else [x, y], [z], opts)
+            return True
+        return g
     if kind == "fcg":
         return lambda n: _fc(n, int(parts[1][1:]))
     return _param_base(name)
